@@ -425,7 +425,7 @@ PROPS["C19"] = {
     "build": c19_build, "gate": c19_gate, "oracle": c19_oracle, "nontrivial": c19_nontrivial,
     "rule": "all ordered pairs (and all triples, for transitivity) over fixed carriers: KeyFormatVersions built by push/pop/truncate/FromIterator scripts (truncated buffers with stale content, equal length/different content), Float/UFloat bit patterns (±0, subnormals, adjacent values, extremes), decryption keys and EXT-X-KEY texts, client attribute values, EXT-X-START, variant streams, generated media and master playlists; non-trivial = accepted pair of two different carrier elements",
     "exhaustive": False,
-    "explanation": "theorems: kfv_laws, f32_laws (hand-written impls), decryptionKey_cmp_eq_iff / extXKey_cmp_eq_iff (derived order the key set relies on) on the model; the model's ==/cmp/hash outcomes are compared with the implementation's on every pair (gate), and the six laws are evaluated on the implementation's own answers for all types including the derived ones",
+    "explanation": "theorems: kfv_laws, f32_laws (hand-written impls), decryptionKey_cmp_laws / extXKey_cmp_laws (derived order the key set relies on) on the model; the model's ==/cmp/hash outcomes are compared with the implementation's on every pair (gate), and the six laws are evaluated on the implementation's own answers for all types including the derived ones",
     "assumptions": ["derived PartialEq/Ord/Hash are structural/lexicographic/field-wise (rustc)", "hash equality is observed through DefaultHasher (SipHash) - collisions of unequal inputs are ignored", "+0 == -0 for Float is IEEE equality by design; content is compared up to that identification"],
 }
 
@@ -900,4 +900,279 @@ PROPS["C06"] = {
     "exhaustive": True,
     "explanation": "theorems: abs_step (one-step refinement of the parser's key-set update against the RFC specification), rel_fold (every line history), keys_in_effect_lines / keys_in_effect (every accepted text: each segment and map reports the specification's snapshot), no_two_keys_same_format, decryptable_abs; oracle: independent Python simulation of RFC 8216 4.3.2.4 per event sequence compared with the implementation's per-segment and per-map key sets",
     "assumptions": ["exhaustive = all sequences up to the stated length over the stated alphabet (not all texts)"],
+}
+
+
+# ------------------------------------------------------------------------------------------
+# C07
+
+U64 = 2**64 - 1
+
+
+def c07_case(rng, nseg=None, mseq=None):
+    """(text, expected) ; expected = None if the numbering overflows, else per segment (number, {(uri, fmt): iv})"""
+    nseg = rng.randint(1, 6) if nseg is None else nseg
+    if mseq is None:
+        mseq = rng.choice([None, 0, 1, 7, 2**32, 2**63, U64 - nseg, U64 - nseg + 1, U64 - nseg + 2, U64, rng.randint(0, U64)])
+    lines = ["#EXT-X-TARGETDURATION:10"]
+    body = []
+    cur, marker = {}, False
+    snaps = []
+    for i in range(nseg):
+        for _ in range(rng.choice([0, 0, 1, 1, 2, 3])):
+            if rng.random() < 0.15:
+                body.append("#EXT-X-KEY:METHOD=NONE"); cur, marker = {}, True
+                continue
+            method = rng.choice(["AES-128", "AES-128", "SAMPLE-AES"])
+            fmt = rng.choice([None, None, "identity", "f2", "com.apple.streamingkeydelivery"])
+            iv = None
+            uri = rng.choice(["k1", "k2", "k3"])
+            l = '#EXT-X-KEY:METHOD=%s,URI="%s"' % (method, uri)
+            if rng.random() < 0.4:
+                iv = "%032x" % rng.choice([0, 1, i, 2**128 - 1, rng.getrandbits(128)])
+                l += ",IV=" + rng.choice(["0x", "0X"]) + (iv.upper() if rng.random() < 0.5 else iv)
+            if fmt is not None:
+                l += ',KEYFORMAT="%s"' % fmt
+            body.append(l)
+            if marker:
+                cur, marker = {}, False
+            nf = {"identity": "identity", None: "identity", "f2": "other:f2", "com.apple.streamingkeydelivery": "kfF"}[fmt]
+            cur = dict(cur); cur[nf] = (uri, method, iv, fmt)
+        body += ["#EXTINF:1,", "s%d" % i]
+        snaps.append(("MARK",) if marker else dict(cur))
+    pos = rng.randint(0, len(body)) if rng.random() < 0.6 else 0
+    # never split a tag from ... (any line boundary is fine for a playlist-level tag)
+    if mseq is not None:
+        ml = "#EXT-X-MEDIA-SEQUENCE:%d" % mseq
+        if pos == 0:
+            lines.append(ml)
+        else:
+            body.insert(pos, ml)
+    text = "\n".join(["#EXTM3U"] + lines + body) + "\n"
+    base = mseq or 0
+    if base + nseg - 1 > U64:
+        return text, None, base
+    exp = []
+    for i, sn in enumerate(snaps):
+        n = base + i
+        if sn == ("MARK",):
+            exp.append((n, "MARK")); continue
+        ks = {}
+        for nf, (uri, method, iv, fmt) in sn.items():
+            if iv is not None:
+                e = ("A", iv)
+            elif method == "AES-128" and fmt in (None, "identity"):
+                e = ("N", n)
+            else:
+                e = ("M",)
+            ks[(uri, nf)] = e
+        exp.append((n, ks))
+    return text, exp, base
+
+
+def iv_of(k):
+    v = k[2]
+    if v.startswith("ivA"):
+        return ("A", v[3:])
+    if v.startswith("ivN"):
+        return ("N", int(v[3:]))
+    return ("M",)
+
+
+def c07_build(ctx):
+    rng = ctx.rng
+    cases = [c for c in corpus_requests() if c.op in ("media", "rt_media")]
+    for _ in range(ctx.n(6000, 120000)):
+        text, exp, base = c07_case(rng)
+        cases.append(mk("rt_media", text, group="numbering+iv", meta={"exp": exp, "base": base}))
+    for t in corpus_texts():
+        if "#EXTINF" in t:
+            cases.append(mk("rt_media", t, group="corpus"))
+    for _ in range(ctx.n(800, 8000)):
+        cases.append(mk("rt_media", G.gen_media(rng, key_weight=0.5, features=ctx.features)[0], group="generated"))
+    return cases
+
+
+def c07_oracle(ctx, cases, impl, model):
+    fails = []
+    for c, a in zip(cases, impl):
+        r = C.Resp(a)
+        if r.status == "panic":
+            fails.append(dict(describe(c.line, a), what="media parser panicked", law="no-panic")); continue
+        if r.status != "ok":
+            if c.meta.get("exp") is not None and "exp" in c.meta:
+                fails.append(dict(describe(c.line, a), what="a valid playlist (numbering within 64 bits) was rejected", law="accept"))
+            continue
+        if "exp" in c.meta and c.meta["exp"] is None:
+            fails.append(dict(describe(c.line, a), what="numbering overflows 64 bits but the playlist was accepted", law="overflow")); continue
+        m = Media(r.obs)
+        for i, s in enumerate(m.segments):
+            if s.number != m.mseq + i:
+                fails.append(dict(describe(c.line, a), what="segment %d has number %d, expected media sequence %d + %d" % (i, s.number, m.mseq, i), law="numbering")); break
+        exp = c.meta.get("exp")
+        if exp is not None:
+            if m.mseq != c.meta["base"]:
+                fails.append(dict(describe(c.line, a), what="media sequence reported %d, written %d" % (m.mseq, c.meta["base"]), law="media-sequence")); continue
+            for i, (s, (n, ks)) in enumerate(zip(m.segments, exp)):
+                got = "MARK" if [key_ident(k) for k in s.keys] == [None] else {key_ident(k): iv_of(k) for k in s.keys}
+                if got != ks:
+                    fails.append(dict(describe(c.line, a), what="segment %d (number %d): effective IVs %s, expected %s" % (i, n, got, ks), law="iv")); break
+        # the text never carries a derived IV: every IV= in the text is an IV= of the input (case-insensitive)
+        text = C.unhx(r.get("T", ""))
+        written = set(x.lower() for x in re.findall(r"IV\s*=\s*0[xX]([0-9a-fA-F]{32})", c.payload))
+        for x in re.findall(r"IV=0[xX]([0-9a-fA-F]+)", text):
+            if x.lower() not in written:
+                fails.append(dict(describe(c.line, a), what="the serialised text contains an IV that was not written in the input (derived IV written)", law="derived-iv-written")); break
+        if "InitializationVector::" in text:
+            fails.append(dict(describe(c.line, a), what="the serialised text contains a debug rendering of a derived/missing IV", law="derived-iv-written"))
+    return fails
+
+
+def c07_canon(raw, keys):
+    """status, media sequence, per segment number and the (key identity -> effective IV) map"""
+    r = C.Resp(raw)
+    if r.status != "ok":
+        return r.status
+    m = Media(r.obs)
+    return "ok %d " % m.mseq + ";".join("%d:%s" % (s.number, sorted((repr(key_ident(k)), iv_of(k)) if k != "K0" else ("K0",) for k in s.keys)) for s in m.segments)
+
+
+PROPS["C07"] = {
+    "build": c07_build, "gate": {"status"}, "canon": c07_canon, "oracle": c07_oracle,
+    "nontrivial": lambda c, a: a.startswith("ok") and "#EXT-X-KEY" in c.payload,
+    "rule": "random playlists of 1-6 segments with media sequences from {absent, 0, 1, 7, 2^32, 2^63, 2^64-1-len .. 2^64-1, random} placed at a random line boundary, key histories over 4 formats / 2 methods / explicit 128-bit IVs in both hex cases / METHOD=NONE; repository fixtures; generated playlists; non-trivial = accepted text with at least one EXT-X-KEY",
+    "explanation": "theorems: numbering_lines / numbering (number = media sequence + index, < 2^64, media sequence = last MEDIA-SEQUENCE line wherever it stands), completeIv_spec, completeIv_explicit, derived_iv_value, effective_ivs_lines, show_iv_free, stripIv_spec, stripIv_completeIv; oracle: independent Python computation of numbers and effective IVs from the generated history, and a scan of the serialised text for IV attributes that were not in the input",
+    "assumptions": ["built playlists with explicit segment numbers are outside this check (recorded finding K7, see C20)"],
+}
+
+
+# ------------------------------------------------------------------------------------------
+# C08
+
+def c08_render(segs):
+    lines = ["#EXTM3U", "#EXT-X-TARGETDURATION:10"]
+    for (uri, kind, n, o, mp) in segs:
+        if mp is not None:
+            lines.append('#EXT-X-MAP:URI="init",BYTERANGE="%s"' % mp)
+        if kind == "E":
+            lines.append("#EXT-X-BYTERANGE:%d@%d" % (n, o))
+        elif kind == "I":
+            lines.append("#EXT-X-BYTERANGE:%d" % n)
+        lines += ["#EXTINF:1,", uri]
+    return "\n".join(lines) + "\n"
+
+
+def c08_spec(segs):
+    """(accepted, [resolved (start,end) or None], in_domain)"""
+    prev = None   # (uri, resolved) of the previous segment
+    out = []
+    for (uri, kind, n, o, mp) in segs:
+        if mp is not None:
+            parts = mp.split("@")
+            if (int(parts[1]) if len(parts) > 1 else 0) + int(parts[0]) > U64:
+                return False, [], True
+        if kind == "N":
+            out.append(None); prev = (uri, None)
+        elif kind == "E":
+            if n + o > U64:
+                return False, [], True
+            out.append((o, o + n)); prev = (uri, (o, o + n))
+        else:
+            if prev is None or prev[1] is None or prev[0] != uri:
+                return False, [], True
+            st = prev[1][1]
+            if st + n > U64:
+                return True, [], False     # sums beyond 2^64: outside the property's domain
+            out.append((st, st + n)); prev = (uri, (st, st + n))
+    return True, out, True
+
+
+def c08_build(ctx):
+    rng = ctx.rng
+    cases = [c for c in corpus_requests() if c.op in ("media", "rt_media")]
+    uris = ["a.ts", "b.ts"]
+    maxlen = ctx.n(4, 5)
+    kinds = [(u, k) for u in uris for k in "NEI"]
+    for n in range(1, maxlen + 1):
+        for combo in itertools.product(kinds, repeat=n):
+            segs = [(u, k, 10 * (i + 1), 100 * (i + 1), None) for i, (u, k) in enumerate(combo)]
+            cases.append(mk("rt_media", c08_render(segs), group="exhaustive<=%d" % maxlen, meta={"segs": segs}))
+    vals = [0, 1, 2**32, 2**63, U64]
+    for _ in range(ctx.n(4000, 80000)):
+        segs = []
+        for i in range(rng.randint(1, 6)):
+            pick = lambda: rng.choice(vals) if rng.random() < 0.4 else rng.randint(0, 10**6)
+            mp = None
+            if rng.random() < 0.2:
+                mp = "%d@%d" % (pick(), pick()) if rng.random() < 0.7 else "%d" % pick()
+            segs.append((rng.choice(uris), rng.choice("NEEII"), pick(), pick(), mp))
+        cases.append(mk("rt_media", c08_render(segs), group="random-values", meta={"segs": segs}))
+    for t in corpus_texts():
+        if "BYTERANGE" in t:
+            cases.append(mk("rt_media", t, group="corpus"))
+    for _ in range(ctx.n(500, 5000)):
+        cases.append(mk("rt_media", G.gen_media(rng, features=ctx.features)[0], group="generated"))
+    return cases
+
+
+def c08_oracle(ctx, cases, impl, model):
+    fails = []
+    for c, a in zip(cases, impl):
+        r = C.Resp(a)
+        if r.status == "panic":
+            fails.append(dict(describe(c.line, a), what="media parser panicked", law="no-panic")); continue
+        segs = c.meta.get("segs")
+        if segs is not None:
+            acc, exp, dom = c08_spec(segs)
+            if not dom:
+                continue
+            if acc != (r.status == "ok"):
+                fails.append(dict(describe(c.line, a), what="byte-range continuity: expected %s, implementation %s" % ("accept" if acc else "reject", r.status), law="accept")); continue
+        if r.status != "ok":
+            continue
+        m = Media(r.obs)
+        if segs is not None:
+            got = [None if s.byte_range is None else brange(s.byte_range) for s in m.segments]
+            if got != exp:
+                fails.append(dict(describe(c.line, a), what="resolved ranges %s, expected %s" % (got, exp), law="resolution")); continue
+            for s, (uri, kind, n, o, mp) in zip(m.segments, segs):
+                if mp is not None:
+                    parts = mp.split("@")
+                    e = (int(parts[1]), int(parts[1]) + int(parts[0])) if len(parts) > 1 else (None, int(parts[0]))
+                    if s.map is None or s.map[1] == "-" or brange(s.map[1]) != e:
+                        fails.append(dict(describe(c.line, a), what="EXT-X-MAP BYTERANGE %s reported as %s" % (mp, s.map and s.map[1]), law="map-range")); break
+        # every reported range has an explicit start; the text carries explicit offsets and re-parses to the same ranges
+        text = C.unhx(r.get("T", ""))
+        for s in m.segments:
+            if s.byte_range is not None and brange(s.byte_range)[0] is None:
+                fails.append(dict(describe(c.line, a), what="a segment is reported with an offset-less byte range", law="explicit")); break
+        for l in text.split("\n"):
+            if l.startswith("#EXT-X-BYTERANGE:") and "@" not in l:
+                fails.append(dict(describe(c.line, a), what="the serialised text has a byte range without offset: %s" % l, law="text-explicit")); break
+        rr = r.get("R")
+        if rr not in ("=", None):
+            if rr in ("err", "panic"):
+                fails.append(dict(describe(c.line, a), what="the serialised playlist does not re-parse (%s)" % rr, law="reparse", reparse=rr))
+            else:
+                m2 = Media(rr)
+                if [x.byte_range for x in m2.segments] != [x.byte_range for x in m.segments]:
+                    fails.append(dict(describe(c.line, a), what="byte ranges change across write -> parse", law="reparse"))
+    return fails
+
+
+def c08_canon(raw, keys):
+    r = C.Resp(raw)
+    if r.status != "ok":
+        return r.status
+    m = Media(r.obs)
+    return "ok " + ";".join("%s|%s|%s" % (s.uri, s.byte_range, "-" if s.map is None else s.map[1]) for s in m.segments)
+
+
+PROPS["C08"] = {
+    "build": c08_build, "gate": {"status"}, "canon": c08_canon, "oracle": c08_oracle,
+    "nontrivial": lambda c, a: a.startswith("ok") and "#EXT-X-BYTERANGE" in c.payload,
+    "rule": "every sequence of up to 4 (thorough 5) segments over 2 URIs x {no range, range with offset, range without offset}; random sequences with lengths/offsets from {0, 1, 2^32, 2^63, 2^64-1} and random values, EXT-X-MAP BYTERANGE with and without offset; repository fixtures; generated playlists; non-trivial = accepted text with at least one EXT-X-BYTERANGE",
+    "exhaustive": True,
+    "explanation": "theorems: checkRanges_iff / validate_ranges_iff (validator <-> well-chained), resolveRange_eq, built_ranges, ranges_lines (reported ranges = declarative resolution for every accepted line history), not_chained_rejected, resolved_range_text (n@start, re-parses to itself), map_range_verbatim; oracle: independent Python spec per generated sequence + scan of the written text + re-parse comparison",
+    "assumptions": ["sums beyond 2^64-1 are outside the property's domain (the code saturates there); such generated cases are only checked for absence of panics"],
 }
